@@ -7,8 +7,9 @@
    for every tick-aligned beat strictly between event beats and outside the union of the warps.
    C12_monotone: on timing data of the domain whose event beats lie on the tick grid the answer never decreases as time
    increases, for every tag and all pairs of times (across states, pauses and warps).
+   C12_warp_tag_start / C12_warp_default_furthest: both halves of the warp clause for every coalesced segment.
    Left to the correspondence on the dyadic family (exact floats), with the oracle stating them directly:
-   warp segments with a stop or delay on their beats
+   pauses of length zero inside warp segments
    (C12_warp_elapse is the warp clause for the other segments, those starting on beat 0 included; C12_half_tick the
    bound in beats). *)
 From Coq Require Import List ZArith QArith Qabs Bool Sorting.Sorted.
@@ -181,6 +182,21 @@ Theorem C12_warp_tag_start : forall td b0 v0 rest, dom td -> td_bpms td = (b0, v
       fst (beat_at_raw (sts td v0) d (time_at (sts td v0) (init_state td v0) s tWARP) tWARP) == s.
 Proof. exact warp_tag_start_td. Qed.
 Print Assumptions C12_warp_tag_start.
+
+(* ... and the default-tag half, again for every coalesced segment whatever sits on or inside it, when stops and delays
+   have positive lengths: at that same time the default tag answers the beat of a state reached at that time, and no state
+   reached at that time lies on a later beat - "the furthest beat reached at that time" (the segment's end when nothing
+   pauses inside it, else the beat of the first pause). *)
+Theorem C12_warp_default_furthest : forall td b0 v0 rest, dom td -> td_bpms td = (b0, v0) :: rest -> b0 == 0 ->
+  (forall r, In r (td_stops td) \/ In r (td_delays td) -> 0 < snd r) ->
+  exists segs : list (Q * Q),
+    (forall x, in_raw (td_warps td) x <-> exists s e, In (s, e) segs /\ s <= x /\ x < e) /\
+    forall s e d, In (s, e) segs ->
+      let T := time_at (sts td v0) (init_state td v0) s tWARP in
+      exists x, In x (sts td v0) /\ s_time x == T /\ fst (beat_at_raw (sts td v0) d T tSTOP) == s_beat x /\
+                (forall y, In y (sts td v0) -> s_time y == T -> s_beat y <= s_beat x).
+Proof. exact warp_default_furthest_td. Qed.
+Print Assumptions C12_warp_default_furthest.
 
 (* rounding to the tick does not depend on how the rational is written, and fixes every tick *)
 Theorem C12_round_well_defined : forall a b, a == b -> tick_round a == tick_round b.
